@@ -90,20 +90,20 @@ type subWorld struct {
 	foreignTk int // index of an oracle key that is not in the vault
 
 	// monitor memory (independent of the module's stores)
-	clean    bool
-	injected bool // a hook was invoked directly by the harness (end-block halts are then not findings)
-	tainted  bool // ... with a custody payout smaller than the order book makes (bank >= available no longer checked)
-	inexact  bool // ... with a custody payout different from the order book's (bank == available no longer checked)
-	reported map[string]bool
-	leakClass string // why the last successful wager left subaccount tokens in the owner's free balance
-	parts    []subPart // participations created through the subaccount house deposit
-	gh       map[int]*subGhost
-	lockLog  map[int][]subLockRec // every lock granted by a successful create / top-up / grant
+	clean     bool
+	injected  bool // a hook was invoked directly by the harness (end-block halts are then not findings)
+	tainted   bool // ... with a custody payout smaller than the order book makes (bank >= available no longer checked)
+	inexact   bool // ... with a custody payout different from the order book's (bank == available no longer checked)
+	reported  map[string]bool
+	leakClass string    // why the last successful wager left subaccount tokens in the owner's free balance
+	parts     []subPart // participations created through the subaccount house deposit
+	gh        map[int]*subGhost
+	lockLog   map[int][]subLockRec // every lock granted by a successful create / top-up / grant
 }
 
 type subGhost struct {
 	released, wagered, profitOut, staked, leaked sdkmath.Int
-	nRel                                          int
+	nRel                                         int
 }
 
 type subPart struct {
